@@ -57,6 +57,13 @@ def main():
     ap.add_argument('--only', default=None, help='substring of qualnames to verify (debugging)')
     a = ap.parse_args()
     seed = int(os.environ.get('VERIF_SEED', '0') or 0)
+    try:
+        # BPTK writes its log into the working directory of the harnesses: keep it from growing without bound
+        _lp = os.path.join(ROOT, 'bptk_py.log')
+        if os.path.getsize(_lp) > 5000000:
+            open(_lp, 'w').close()
+    except OSError:
+        pass
     if a.replay:
         rc, out, err = run_native(a.replay, [], timeout=300)
         sys.stdout.write(out)
